@@ -2,7 +2,10 @@ module verif/mc
 
 go 1.25.5
 
-require github.com/ysugimoto/falco/v2 v2.0.0-00010101000000-000000000000
+require (
+	github.com/pkg/errors v0.9.1
+	github.com/ysugimoto/falco/v2 v2.0.0-00010101000000-000000000000
+)
 
 require (
 	github.com/BurntSushi/toml v1.3.2 // indirect
@@ -17,7 +20,6 @@ require (
 	github.com/mattn/go-isatty v0.0.12 // indirect
 	github.com/pierrec/xxHash v0.1.5 // indirect
 	github.com/pion/dtls/v2 v2.2.12 // indirect
-	github.com/pkg/errors v0.9.1 // indirect
 	github.com/pquerna/otp v1.4.0 // indirect
 	github.com/remyoudompheng/bigfft v0.0.0-20200410134404-eec4a21b6bb0 // indirect
 	github.com/rs/xid v1.5.0 // indirect
